@@ -2,7 +2,7 @@
    Only statements, [exact] and [Print Assumptions] live here. *)
 From Coq Require Import List Arith Bool NArith.
 From GV Require Import Base.Result Gen.TokenTypes Gen.Defs Model.Parser Spec.RefTable Spec.Pratt Spec.Chains
-  Proofs.C02.Table Proofs.C02.Triples Proofs.C02.Chains.
+  Proofs.C02.Table Proofs.C02.Triples Proofs.C02.Chains Proofs.C02.OpExpr.
 Import ListNotations.
 
 (* (a) the priority map extracted from parser.rs orders every pair of definitions as
@@ -133,3 +133,60 @@ Example C02_ex_discriminating :
    | _, _ => true
    end) = false.
 Proof. vm_compute. repeat split; reflexivity. Qed.
+
+(* (e) UNBOUNDED: bracket-free operator expressions of any length.  For every token
+   list over value tokens, prefix operators (9 tokens), suffix operators (4), binary
+   operators (38) and whitespace that has the shape of an expression
+   ([operator_expression]: operand := prefix* value suffix*; operands joined by binary
+   operators or, across whitespace, by the implicit space list; whitespace allowed
+   between any two tokens; no leading/trailing whitespace) parse accepts and returns
+   exactly the tree the pinned table dictates: prefix operators group right-to-left and
+   take the operand built under their own rank, suffix operators close what binds
+   tighter, the implicit list sits at its table position (220) and is NOT created around
+   a binary operator written with spaces.  This subsumes (d). *)
+Theorem C02_operator_expressions : forall toks : list token_type,
+  operator_expression toks = true -> c02_agree toks = true.
+Proof. exact c02_operator_expressions. Qed.
+Print Assumptions C02_operator_expressions.
+
+Theorem C02_binary_chains_are_operator_expressions : forall toks : list token_type,
+  binary_chain toks = true -> operator_expression toks = true.
+Proof. exact binary_chain_opexpr. Qed.
+Print Assumptions C02_binary_chains_are_operator_expressions.
+
+(*   -x.y 1~~ * 2 = a b + ?? -3 .|      (19 tokens, 10 operators incl. two implicit lists) *)
+Definition C02_sample_expression : list token_type :=
+  [TT_Opposite; TT_Identifier; TT_Period; TT_Identifier; TT_Whitespace; TT_Number; TT_EmptyApply;
+   TT_Whitespace; TT_MultiplicationSign; TT_Whitespace; TT_Number; TT_Pair; TT_Identifier; TT_Whitespace;
+   TT_Identifier; TT_PlusSign; TT_Tis; TT_Opposite; TT_Number; TT_LengthInternal].
+
+Example C02_ex_expression_hypothesis : operator_expression C02_sample_expression = true.
+Proof. vm_compute. reflexivity. Qed.
+
+Example C02_ex_expression_tree :
+  pratt C02_sample_expression =
+  Some (RBin D_List None
+          (RBin D_List None
+             (RPre D_Opposite 0 (RBin D_Access (Some 2) (RAtom D_Identifier 1) (RAtom D_Identifier 3)))
+             (RBin D_Pair (Some 11)
+                (RBin D_MultiplicationSign (Some 8) (RSuf D_EmptyApply 6 (RAtom D_Number 5)) (RAtom D_Number 10))
+                (RAtom D_Identifier 12)))
+          (RBin D_Addition (Some 15) (RAtom D_Identifier 14)
+             (RPre D_Tis 16 (RPre D_Opposite 17 (RSuf D_AccessLengthInternal 19 (RAtom D_Number 18)))))).
+Proof. vm_compute. reflexivity. Qed.
+
+(* the hypothesis is a real restriction: juxtaposed values, a dangling operator, trailing
+   whitespace and a prefix operator glued to a preceding value are not operator expressions *)
+Example C02_ex_expression_rejects :
+  operator_expression [TT_Number; TT_Number] = false /\
+  operator_expression [TT_Number; TT_PlusSign] = false /\
+  operator_expression [TT_Number; TT_Whitespace] = false /\
+  operator_expression [TT_Number; TT_Opposite; TT_Number] = false /\
+  operator_expression [TT_Number; TT_Whitespace; TT_Opposite; TT_Number] = true /\
+  operator_expression [TT_StartGroup; TT_Number; TT_EndGroup] = false.
+Proof. vm_compute. repeat split; reflexivity. Qed.
+
+(* (f) what is still not proved without a bound: brackets (groups, nested expressions,
+   side effects), separators and annotations, and the claim for token lists that are not
+   expressions; C02_full_statement above stays stated.  For those the bounded theorems
+   (b) remain the evidence. *)
